@@ -80,6 +80,72 @@ def cleanup_built():
             pass
 
 
+def _limit_as(gib):
+    import resource
+
+    def f():
+        resource.setrlimit(resource.RLIMIT_AS, (gib << 30, gib << 30))
+    return f
+
+
+def harness_guarded(args, timeout=3600, mem_gib=6, max_crashes=6):
+    """Runs a driver whose inputs may make the library exhaust memory or hang: the driver runs under an
+    address-space limit with a per-case watchdog and records which case it is about to execute (-marker).
+    When the worker dies the case that killed it is recorded and a new worker resumes AFTER it (earlier
+    cases are fast-forwarded, not re-executed); each death becomes a synthesized event with outcome
+    oom / timeout / crash, which the judge rejects. After max_crashes deaths the run stops there.
+    Returns (stats, crashed) with stats aggregated over the workers."""
+    exe = build_harness()
+    marker = os.path.join(WORK, "marker-%d" % os.getpid())
+    crashed, files, total = [], [], dict(events=0, behaviours=0, distinct_nontrivial=0, samples=[])
+    out_ix = args.index("-out") + 1
+    base_out = str(args[out_ix])
+    resume = 0
+    for attempt in range(max_crashes + 1):
+        if os.path.exists(marker):
+            os.remove(marker)
+        a2 = [str(a) for a in args]
+        a2[out_ix] = "%s.w%d" % (base_out, attempt)
+        cmd = [exe] + a2 + ["-marker", marker, "-resume", str(resume)]
+        t0 = time.time()
+        p = subprocess.run(cmd, capture_output=True, text=True, timeout=timeout, env=goenv(), preexec_fn=_limit_as(mem_gib))
+        done = [f for f in sorted(os.listdir(os.path.dirname(base_out))) if f.startswith(os.path.basename(base_out) + ".w%d." % attempt)]
+        files += [os.path.join(os.path.dirname(base_out), f) for f in done]
+        if p.returncode == 0:
+            for line in p.stdout.splitlines():
+                if line.startswith("STATS "):
+                    st = json.loads(line[6:])
+                    for k in ("events", "behaviours", "distinct_nontrivial"):
+                        total[k] += st.get(k, 0)
+                    total["samples"] += st.get("samples") or []
+                    for k, v in st.items():
+                        if k not in total:
+                            total[k] = v
+            break
+        kind = "timeout" if p.returncode == 97 else ("oom" if ("out of memory" in p.stderr or "cannot allocate" in p.stderr) else "crash")
+        if not os.path.exists(marker):
+            raise Machinery("harness %s died (%s) outside a marked case:\n%s" % (args[0], kind, p.stderr[:600]))
+        idx = int(open(marker).read().split()[0])
+        log("[run] harness %s died (%s) in case %d after %.0fs; resuming after it" % (args[0], kind, idx, time.time() - t0))
+        crashed.append((idx, kind))
+        resume = idx + 1
+    # the events of a dead worker are on disk up to its last flush; count lines
+    total["events"] = 0
+    for f in files:
+        total["events"] += sum(1 for _ in open(f))
+    if crashed:
+        deaths = "%s.deaths.0.ndjson" % base_out
+        with open(deaths, "w") as f:
+            for idx, kind in crashed:
+                f.write(json.dumps(dict(b=idx, i=0, op="Bytes", entry="(worker)", kind="worker-death", len=0, out=kind, follow=[],
+                                        allocKB=0, ms=0, input=[], key=[], val=[], keys=[])) + "\n")
+        files.append(deaths)
+        total["events"] += len(crashed)
+    total["files"] = files
+    log("[run] harness %s guarded: events=%d worker deaths=%d" % (args[0], total["events"], len(crashed)))
+    return total, crashed
+
+
 def harness(args, race=False, timeout=3600, env=None, allow_fail=False):
     """Runs a harness driver; returns (stats dict from the STATS line, stdout)."""
     exe = build_harness(race)
@@ -92,7 +158,7 @@ def harness(args, race=False, timeout=3600, env=None, allow_fail=False):
     except subprocess.TimeoutExpired:
         raise Machinery("harness %s timed out after %ds" % (args[0], timeout))
     if p.returncode != 0 and not allow_fail:
-        raise Machinery("harness %s exited %d:\n%s\n%s" % (args[0], p.returncode, p.stdout[-3000:], p.stderr[-6000:]))
+        raise Machinery("harness %s exited %d:\n%s\n%s" % (args[0], p.returncode, p.stdout[-1500:], p.stderr[:1500]))
     stats = None
     for line in p.stdout.splitlines():
         if line.startswith("STATS "):
@@ -329,9 +395,13 @@ class Check:
             if len(self.cov["samples"]) < 6:
                 self.cov["samples"].append(strip_h(s))
 
-    def run_and_judge(self, hargs, module, race=False, par=10, keep=False, env=None, timeout=3600, xmx="6g", mode=None):
+    def run_and_judge(self, hargs, module, race=False, par=10, keep=False, env=None, timeout=3600, xmx="6g", mode=None, guarded=False):
         """harness driver -> trace files -> TLC judge; collects divergences."""
-        stats, _ = harness(hargs, race=race, env=env, timeout=timeout)
+        if guarded:
+            stats, crashed = harness_guarded(hargs, timeout=timeout)
+            self.extra["worker_deaths"] = self.extra.get("worker_deaths", 0) + len(crashed)
+        else:
+            stats, _ = harness(hargs, race=race, env=env, timeout=timeout)
         files = stats["files"]
         if stats["events"] == 0:
             raise Machinery("driver %s produced an empty trace" % hargs[0])
